@@ -177,16 +177,26 @@ Definition load (sf : srcfacts) (f : file) : option state :=
           match loss, (if arg_from args "metrics" "file:metrics" then f_metrics f else true) with
           | Some l, true =>
             (* BundleSolver1D's constructor wraps the equations it is given once more, with the
-               eq_param_index it is given (default: none); a load that passes eq_param_index is
-               not modelled (fail-closed) *)
-            if (match k with KBundle => has_arg args "eq_param_index" | _ => false end) then None else
-            let layers := match k with KBundle => [] :: e | _ => e end in
+               eq_param_index it is given: none by default; `tuple(range(n_thetas))` hands ALL bundle
+               parameters down, so that the saved wrapper selects by its own indices; any other
+               expression is not modelled (fail-closed) *)
+            match (match k with
+                   | KBundle => match assoc "eq_param_index" args with
+                                | None => Some ([] :: e)
+                                | Some pr => if String.eqb pr "tuple(range(len(file:solver.r_min)-1))" then Some (seq 0 np :: e) else None
+                                end
+                   | _ => Some e
+                   end) with
+            | None => None
+            | Some layers =>
             Some (mkState k n o
                     (if restored sf "metrics_history['train_loss']" "file:train_loss_history" then match f_train f with Some h => h | None => [] end else [])
                     (if restored sf "metrics_history['valid_loss']" "file:valid_loss_history" then match f_valid f with Some h => h | None => [] end else [])
-                    (if restored sf "lowest_loss" "file:lowest_loss" then match f_lowest f with Some x => x | None => None end else None)
+                    (if restored sf "lowest_loss" "file:lowest_loss" || restored sf "lowest_loss" "fileget:lowest_loss"
+                     then match f_lowest f with Some x => x | None => None end else None)
                     (if restored sf "best_nets" "file:best_nets" then match f_best f with Some b => b | None => None end else None)
                     c l (match k with KBundle => np | _ => 0 end) layers)
+            end
           | _, _ => None
           end
       | _, _, _, _, _, _ => None
@@ -208,6 +218,32 @@ Definition run_epoch (s : state) (e : epoch_data) : state :=
           (conds s) (loss_id s) (n_params s) (eqs s).
 
 Definition fit (s : state) (es : list epoch_data) : state := fold_left run_epoch es s.
+
+(* ------------------------------------------------------------------ specification vocabulary *)
+(* what get_solution(best=..) evaluates: the chosen networks and what enforce reads of the conditions *)
+Definition solution (s : state) (use_best : bool) : option (list Z) * list cond :=
+  (if use_best then best s else Some (nets s), map cond_sem (conds s)).
+
+(* best-model tracking refers to the lowest validation loss of the history from epoch k on *)
+Definition tracks_from (k : nat) (s : state) : Prop :=
+  match lowest s with
+  | None => skipn k (valid_hist s) = []
+  | Some l => In l (skipn k (valid_hist s)) /\ Forall (fun v => Qle l v) (skipn k (valid_hist s))
+  end.
+Definition tracks (s : state) : Prop := tracks_from 0 s.
+
+(* which bundle parameters finally reach the user's equations: every wrapper layer picks its
+   indices out of what the layer above hands down (None = IndexError) *)
+Fixpoint pick {B} (l : list nat) (ps : list B) : option (list B) :=
+  match l with
+  | [] => Some []
+  | i :: r => match nth_error ps i, pick r ps with Some x, Some t => Some (x :: t) | _, _ => None end
+  end.
+Fixpoint select {B} (layers : list (list nat)) (ps : list B) : option (list B) :=
+  match layers with
+  | [] => Some ps
+  | l :: r => match pick l ps with Some q => select r q | None => None end
+  end.
 
 (* ------------------------------------------------------------------ save / load / fit cycles *)
 Inductive op :=
